@@ -166,6 +166,9 @@ func (u *Unmarshaler) fillSlice(fieldType reflect.Type, value reflect.Value, map
 	dereffedBaseType := Deref(baseType)
 	dereffedBaseKind := dereffedBaseType.Kind()
 	refValue := reflect.ValueOf(mapValue)
+	if refValue.Kind() != reflect.Slice {
+		return errTypeMismatch
+	}
 	if refValue.IsNil() {
 		return nil
 	}
@@ -202,7 +205,7 @@ func (u *Unmarshaler) fillSlice(fieldType reflect.Type, value reflect.Value, map
 				conv.Index(i).Set(target.Elem())
 			}
 		case reflect.Slice:
-			if err := u.fillSlice(dereffedBaseType, conv.Index(i), ithValue); err != nil {
+			if err := u.fillSlice(dereffedBaseType, ensureValue(conv.Index(i)), ithValue); err != nil {
 				return err
 			}
 		default:
@@ -235,8 +238,8 @@ func (u *Unmarshaler) fillSliceFromString(fieldType reflect.Type, value reflect.
 		return errUnsupportedType
 	}
 
-	baseFieldType := Deref(fieldType.Elem())
-	baseFieldKind := baseFieldType.Kind()
+	baseFieldType := fieldType.Elem()
+	baseFieldKind := Deref(baseFieldType).Kind()
 	conv := reflect.MakeSlice(reflect.SliceOf(baseFieldType), len(slice), cap(slice))
 
 	for i := 0; i < len(slice); i++ {
@@ -329,11 +332,15 @@ func (u *Unmarshaler) generateMap(keyType, elemType reflect.Type, mapValue any) 
 		switch dereffedElemKind {
 		case reflect.Slice:
 			target := reflect.New(dereffedElemType)
-			if err := u.fillSlice(elemType, target.Elem(), keythData); err != nil {
+			if err := u.fillSlice(dereffedElemType, target.Elem(), keythData); err != nil {
 				return emptyValue, err
 			}
 
-			targetValue.SetMapIndex(key, target.Elem())
+			if fieldElemKind == reflect.Ptr {
+				targetValue.SetMapIndex(key, target)
+			} else {
+				targetValue.SetMapIndex(key, target.Elem())
+			}
 		case reflect.Struct:
 			keythMap, ok := keythData.(map[string]any)
 			if !ok {
